@@ -140,8 +140,10 @@ def equality_test(actual, expected, _exact_strings, _delta):
     elif isinstance(expected, Number) and isinstance(actual, Number) and isinstance(expected, type(actual)):
         return expected == actual
     # String comparisons
-    elif ((isinstance(expected, str) and isinstance(actual, str)) or
-          (isinstance(expected, bytes) and isinstance(actual, bytes))):
+    elif isinstance(expected, bytes) and isinstance(actual, bytes):
+        # The normalisation below is defined for text only
+        return expected == actual
+    elif isinstance(expected, str) and isinstance(actual, str):
         if _exact_strings:
             return expected == actual
         else:
